@@ -14,21 +14,22 @@ pub fn def() -> CheckDef {
         rule: "case = generated model (control flow + catches) x scripted client using all action kinds (with duplicates, missing/extra options) x adversary issuing any of the ten actions at any task ever seen (open, terminal, step, branch, root, unknown) x seeded schedule; the H2 trace of every task state write is monitored. non-trivial = at least one client/adversary action was accepted and one rejected, or a catch revived a task; distinct = distinct (scenario hash, schedule hash)",
         level: "exploration",
         assumptions: &["monotone simulated clock", "state writes are observed through hook H2 (Task::set_state / set_pure_state)", "no storage errors are injected"],
-        probes: &["probe.action_on_terminal_task", "probe.catch_revive", "probe.rejected_action", "probe.duplicate_action"],
-        quick_cases: 3000,
+        probes: &["probe.action_on_terminal_task", "probe.catch_revive", "probe.rejected_action", "probe.duplicate_action", "probe.cancel_accepted"],
+        quick_cases: 6000,
         no_shrink: &[],
     }
 }
 
 const OPTS: LifeOpts = LifeOpts {
     catches: true,
-    scripted_actions: &["complete", "submit", "skip", "abort", "error", "back", "cancel", "remove"],
-    p_scripted: 450,
+    // weighted towards the multi-step histories (skip / submit / remove an act, then cancel an earlier one)
+    scripted_actions: &["cancel_prev", "cancel_prev", "cancel_prev", "skip", "skip", "submit", "remove", "complete", "abort", "error", "back", "cancel"],
+    p_scripted: 600,
     adversary: Some((350, 12, &TEN)),
     dup: true,
     generators: true,
     hooks: false,
-    outputs: true,
+    outputs: true, drop_outputs: true
 };
 
 pub fn case(ctx: &mut CaseCtx) -> CaseOut {
@@ -44,6 +45,9 @@ pub fn case(ctx: &mut CaseCtx) -> CaseOut {
     let revive = rec.trans.iter().any(|t| t.old == "error" && t.new == "running");
     if rejected {
         ctx.count("probe.rejected_action", 1);
+    }
+    if rec.actions.iter().any(|a| a.ok && a.action == "cancel") {
+        ctx.count("probe.cancel_accepted", 1);
     }
     if revive {
         ctx.count("probe.catch_revive", 1);
